@@ -4,6 +4,7 @@ import BigtoolsModel.SummaryFold
 import BigtoolsModel.Tiler3
 import BigtoolsModel.BedZoomCompose
 import BigtoolsModel.WigSections
+import BigtoolsModel.Stats2
 import BigtoolsModel.AutoSqlNTest
 /-! Driver commands `wig` and `bed`: the property-level observables of a written file, computed from the input
     by the model's specification-level functions (the byte-level writer/reader models are proved equal to
@@ -110,6 +111,17 @@ def wigCase (c : Case) : List String :=
               if x == v then rle rest (some (v, n + 1))
               else s!" {match v with | some b => hex8 b | none => "nan"}*{n}" :: rle rest (some (x, 1))
           s!"A {qi} ok" ++ String.join (rle cells none)
+        | "stats" =>
+          -- `stats_for_bed_item`: size, covered bases, sum, min, max of the stored values clipped to the region
+          match (intVals[ci]?).bind id with
+          | none => s!"A {qi} na"
+          | some ivs =>
+            let clipped : List ST.Val := ST.query qs qe (ivs.map fun v => ⟨v.s, v.e, v.v⟩)
+            let st := ST.stats qs qe clipped
+            let mn := ST.reportMin qs qe clipped
+            let mx := ST.reportMax qs qe clipped
+            let f (o : Option Int) : String := match o with | some v => toString v | none => "nan"
+            s!"A {qi} ok {st.size} {st.bases} {st.sum} {f mn} {f mx}"
         | "zoom" =>
           let lvl := levelOf c (q.getD 5 "0")
           if !(levels c).contains lvl then s!"A {qi} err Zoom" else
